@@ -120,6 +120,34 @@ Fixpoint run_sources (parsed : list nat) (cs : cells) (h : list (option (list na
       let '(es, p2, cs2, f2) := run_sources p1 cs1 r in
       (e :: es, p2, cs2, f1 || f2)
   end.
+
+(* ---- several RUNS over the same targets.  An application may build its option set anew for every run (fresh OptionGroup /
+   OptionContext with fresh storeTo(x) / store<T>(map) / flag(map) / notify(..) values) and keep what the values are bound to: the
+   variables, the ValueMap, the notifier's context.  A fresh Value object is in state unassigned and has parsed nothing; the bound
+   variable keeps its content.  [newrun o v] is what re-building option o does to the (model of the) variable: nothing for a typed
+   variable; for a mapped value the entry of the map stays, but it is no longer the object the (new) Value parses into (a fresh
+   NotifiedValue creates a new object for its first accepted string and hands it to ValueMap::add, which REPLACES the entry). ---- *)
+Variable newrun : nat -> var -> var.
+Definition fresh_cells (cs : cells) : cells := fun o => mkCell VALUE_UNASSIGNED [] (newrun o (c_var (cs o))).
+
+(* one run: fresh option set and fresh ParsedOptions, a history of sources, then assignDefaults over the options os *)
+Definition run_once (os : list nat) (cs : cells) (h : list (option (list nat) * list (nat * str)))
+  : list (option err) * option err * list nat * cells * bool :=
+  let '(es, p, cs1, f) := run_sources [] (fresh_cells cs) h in
+  let '(e, cs2) := assign_defaults p cs1 os in
+  (es, e, p, cs2, f).
+
+(* a sequence of runs over the same variable store: per run (errors of the sources, error of the defaults, recorded names, fault);
+   and the store after the last run *)
+Fixpoint run_runs (os : list nat) (cs : cells) (hs : list (list (option (list nat) * list (nat * str))))
+  : list (list (option err) * option err * list nat * bool) * cells :=
+  match hs with
+  | [] => ([], cs)
+  | h :: r =>
+      let '(es, e, p, cs2, f) := run_once os cs h in
+      let '(rs, cs3) := run_runs os cs2 r in
+      ((es, e, p, f) :: rs, cs3)
+  end.
 End Assign.
 
 Arguments mkCell {val var}.
@@ -132,7 +160,12 @@ Arguments c_var {val var}.
    kind 0 flag(store_true) 1 flag(store_false) 2 int 3 std::string 4 std::vector<int> 5 ValueMap store<int> 6 custom notifier
         7 ValueMap flag(store_true) 8 ValueMap flag(store_false)   (mapped_value.h flag(ValueMap&, FlagAction): the bool lives in the map,
           absent until the first accepted value; afterwards the NotifiedValue parses in place, like kind 5)
-   Values and variable contents are encoded as lists of integers.  The int scanner covers the decimal
+        9 ValueMap store<std::vector<int> >
+   Values and variable contents are encoded as lists of integers.
+   A MAPPED variable (kinds 5, 7, 8, 9) is  []  = the map has no entry,  1 :: content = the entry is the object the option's current
+   Value parses into (NotifiedValue after its hand-over: in place),  0 :: content = the entry was left by an EARLIER option set (a
+   fresh Value does not know it: it parses into a new object, and ValueMap::add replaces the entry with that object when the string
+   was accepted - the old content does not matter; a refused string dies with the temporary).  [k_view] drops the tag (observation).  The int scanner covers the decimal
    sublanguage of parseSigned ([+-]?digits without a leading 0 before another digit/x; no keywords, no leading blank).
    ------------------------------------------------------------------------------------------------ *)
 Fixpoint is_prefix (p s : str) : option str :=
@@ -216,24 +249,34 @@ Definition k_parser (kind : Z) (s : str) : option (list Z) :=
   else if (kind =? 1) || (kind =? 8) then match s with [] => Some [0] | _ => match fst (bool_conv s) with Some b => Some [1 - b] | None => None end end
   else if (kind =? 2) || (kind =? 5) then match fst (int_conv s) with Some v => Some [v] | None => None end
   else if kind =? 3 then Some s
-  else if kind =? 4 then fst (vec_conv s)
+  else if (kind =? 4) || (kind =? 9) then fst (vec_conv s)
   else match s with 33 :: _ => None | _ => Some s end.          (* the harness' notifier refuses strings starting with '!' *)
+
+Definition k_mapped (kind : Z) : bool := (kind =? 5) || (kind =? 7) || (kind =? 8) || (kind =? 9).
 
 Definition k_store (kind : Z) (x : list Z) (v : list Z) : list Z :=
   if kind =? 4 then v ++ x
   else if kind =? 6 then v ++ (Z.of_nat (length x) :: x)
+  else if kind =? 9 then match v with 1 :: c => 1 :: c ++ x | _ => 1 :: x end     (* in place: appended; new object: the parsed list *)
+  else if k_mapped kind then 1 :: x
   else x.
 
 Definition k_fail (kind : Z) (s : str) (v : list Z) : list Z :=
   if kind =? 0 then match snd (bool_conv s) with Some b => [b] | None => v end
   else if kind =? 2 then match snd (int_conv s) with Some x => [x] | None => v end
   else if kind =? 4 then v ++ snd (vec_conv s)
-  else if kind =? 5 then match v with [] => [] | _ => match snd (int_conv s) with Some x => [x] | None => v end end
-  else if kind =? 7 then match v with [] => [] | _ => match snd (bool_conv s) with Some b => [b] | None => v end end
+  else if kind =? 5 then match v with 1 :: _ => match snd (int_conv s) with Some x => [1; x] | None => v end | _ => v end
+  else if kind =? 7 then match v with 1 :: _ => match snd (bool_conv s) with Some b => [1; b] | None => v end | _ => v end
+  else if kind =? 9 then match v with 1 :: c => 1 :: c ++ snd (vec_conv s) | _ => v end
   else v.
 
 Definition k_init (kind : Z) : list Z :=
   if (kind =? 0) || (kind =? 1) then [0] else if kind =? 2 then [-777] else [].
+
+(* the option set is re-built: a mapped entry stays in the map but is not the new Value's object *)
+Definition k_newrun (kind : Z) (v : list Z) : list Z :=
+  if k_mapped kind then match v with _ :: c => 0 :: c | [] => [] end else v.
+Definition k_view (kind : Z) (v : list Z) : list Z := if k_mapped kind then tl v else v.
 
 (* ---- case decoding ---- *)
 Definition take_str (l : list Z) : str * list Z :=
@@ -287,9 +330,11 @@ Fixpoint dec_pairs (n : nat) (l : list Z) : list (nat * str) * list Z :=
 (* OAdd ids     = ParsedOptions::add(name) for each id (any name: an option of the context or a FOREIGN name, id >= number of options);
    OAssign2 src = ParsedOptions::assign of a source that belongs to a SECOND context on the same ParsedOptions object; the second
                   context of the harness holds FOREIGN_OPTS plain std::string options named o<n> .. o<n+FOREIGN_OPTS-1> (n = number of
-                  options of the first context) - exactly what [desc_of] / [kind_of] answer outside the first context. *)
+                  options of the first context) - exactly what [desc_of] / [kind_of] answer outside the first context.
+   ORun         = a NEW RUN: option group, context and all Value objects are built again from the same descriptors, fresh ParsedOptions;
+                  variables / ValueMap / notifier log survive ([fresh_cells]). *)
 Inductive op := OAssign (excl : option (list nat)) (src : list (nat * str)) | ODefaults | OReset
-              | OAdd (ids : list nat) | OAssign2 (src : list (nat * str)).
+              | OAdd (ids : list nat) | OAssign2 (src : list (nat * str)) | ORun.
 Definition FOREIGN_OPTS : nat := 6.
 
 Fixpoint dec_ops (fuel : nat) (l : list Z) : list op :=
@@ -308,6 +353,7 @@ Fixpoint dec_ops (fuel : nat) (l : list Z) : list op :=
       | 3 :: r => OReset :: dec_ops f r
       | 4 :: k :: r => let '(ids, r1) := dec_ids (Z.to_nat k) r in OAdd ids :: dec_ops f r1
       | 5 :: np :: r => let '(ps, r1) := dec_pairs (Z.to_nat np) r in OAssign2 ps :: dec_ops f r1
+      | 6 :: r => ORun :: dec_ops f r
       | _ => []
       end
   end.
@@ -319,6 +365,7 @@ Definition desc_of (o : nat) : opt := k_opt (nth o copts (mkC 3 (mkOpt false Non
 Definition c_parser (o : nat) := k_parser (kind_of o).
 Definition c_store (o : nat) := k_store (kind_of o).
 Definition c_fail (o : nat) := k_fail (kind_of o).
+Definition c_newrun (o : nat) := k_newrun (kind_of o).
 Definition ccell := @cell (list Z) (list Z).
 
 Definition obs_err (e : option err) : list Z :=
@@ -330,7 +377,8 @@ Definition obs_err (e : option err) : list Z :=
 Definition obs_state (parsed : list nat) (cs : nat -> ccell) : list Z :=
   Z.of_nat (length parsed) ::
   flat_map (fun o => let c := cs o in
-                     [c_state c; b2z (mem o parsed); Z.of_nat (length (c_var c))] ++ c_var c)
+                     let w := k_view (kind_of o) (c_var c) in
+                     [c_state c; b2z (mem o parsed); Z.of_nat (length w)] ++ w)
            (seq 0 (length copts)).
 
 Fixpoint run_ops (parsed : list nat) (cs : nat -> ccell) (ops : list op) : list Z :=
@@ -351,6 +399,7 @@ Fixpoint run_ops (parsed : list nat) (cs : nat -> ccell) (ops : list op) : list 
       let src' := filter (fun p => (n <=? fst p)%nat && (fst p <? n + FOREIGN_OPTS)%nat) src in
       let '(e, p, cs', f) := assign_source _ _ desc_of c_parser c_store c_fail parsed None cs src' in
       obs_err e ++ [b2z f] ++ obs_state p cs' ++ run_ops p cs' r
+  | ORun :: r => run_ops [] (fresh_cells _ _ c_newrun cs) r                            (* no observation of its own *)
   end.
 End Run.
 
